@@ -94,6 +94,14 @@ def eval_canon(case):
     for comp, det in compare_sem(a, b, case["strip_fragment"]):
         out.append(("C01/" + comp, "canonicalize_url(%r, quoted=%s, strip_fragment=%s, default_protocol=%r) = %r: %s %s" % (
             url, case["quoted"], case["strip_fragment"], dp, res, comp, det)))
+    if res != res.strip():
+        # 're-parsing the result' as the library itself (and every reader that trims) does: whitespace left raw at an edge of the result is cut off
+        try:
+            for comp, det in compare_sem(a, urlref.sem(res.strip(), dp), case["strip_fragment"]):
+                out.append(("C01/" + comp, "canonicalize_url(%r, quoted=%s, strip_fragment=%s) = %r ends / starts with raw whitespace; read back after trimming: %s %s" % (
+                    url, case["quoted"], case["strip_fragment"], res, comp, det)))
+        except Exception as e:  # noqa
+            out.append(("C01/unparseable-result", "%r -> %r (trimmed): %r" % (url, res, e)))
     try:
         parts = canonicalize_url(url, unsplit=False, **kw)
         if urlunsplit(parts) != res:
@@ -184,9 +192,31 @@ def _sweep(acc, shard, nshards, seed, tier, pairs=False):
                     acc.check(case, True, ["sweep:" + pos] + (_classes(case) if idx % 41 == 0 else []))
 
 
+WS_TAILS = ["\u00a0", "\u2003", "\u2028", "\u3000", " "]     # not U+0085: a C1 control character is removed from the URL by design
+
+
+def _edge_panel(acc, shard, nshards, seed, tier):
+    """a component that ends (or starts) with raw whitespace and becomes the end (start) of the result: after a stripped fragment, before an
+    empty '?' / '#', in the userinfo-less scheme-less form"""
+    idx = 0
+    for ws, esc, tmpl in itertools.product(WS_TAILS, ["", "%41", "caf%C3%A9", "%E6%9D%B1"], ["http://h.com/a%sWS#frag", "http://h.com/a%sWS?", "http://h.com/a%sWS#", "http://h.com/x?k=v%sWS#f",
+                                                                                                 "http://h.com/x?k%sWS", "http://h.com/p#f%sWS", "http://h.com/a/WS%sb/WS#x"]):
+        for quoted in (False, True):
+            for sf in (False, True):
+                idx += 1
+                if idx % nshards != shard:
+                    continue
+                url = (tmpl % esc).replace("WS", ws)
+                if url != url.strip():
+                    continue        # whitespace at the edge of the *input* is no part of the URL
+                acc.check({"kind": "canon", "url": url, "scheme_form": "explicit", "quoted": quoted, "strip_fragment": sf, "default_protocol": "https"}, True, ["edge-whitespace-panel"])
+
+
 def campaigns(tier, seed):
     quick = tier == "quick"
     return [
+        Campaign("edge-whitespace", _edge_panel, "enumeration", exhaustive=True,
+                 bounds="5 whitespace characters x 4 neighbouring escapes x 7 positions next to a dropped / empty component x quoted x strip_fragment"),
         Campaign("token-sweep", _sweep, "enumeration", exhaustive=True,
                  bounds="every token%s in each of 6 positions of a carrier URL x quoted x strip_fragment" % (
                      "" if quick else " and ordered token pair"),
